@@ -179,12 +179,24 @@ def wireDetail (name : String) (cfg : Plug.PlugCfg) : String :=
   | .v4 (.search _) => s!"{name} accepted search domain cannot be encoded as RFC 1035 labels"
   | _ => s!"{name} accepted configuration cannot be encoded"
 
-/-- in-range arguments decode back to the configured number (C17: "exactly the configured value") -/
-def valueOK : Plug.PlugCfg → Bool
-  | .v4 (.mtu n) => Plug.decBe 2 (Plug.encU16 n) == some n.toNat
-  | .v4 (.leasetime d) => Plug.decBe 4 (Plug.encSecs d) == some (d / 1000000000).toNat
-  | .v4 (.ipv6only d) => Plug.decBe 4 (Plug.encSecs d) == some (d / 1000000000).toNat
-  | _ => true
+/-- D22–D24: what the set-ups of mtu, lease_time and ipv6only made of the arguments BEFORE they tested the range (the
+model's `setupOld`). The model refuses a number that does not fit the option; an implementation that accepts it gets
+this configuration, so that the verdict can name the value and the replies can still be followed. -/
+def acceptedOutOfRange (p : Nat) (name : String) (oracles : List Plug.ArgOracle) : Option Plug.Cfg4 :=
+  if p != 4 then none
+  else if name == "mtu" then (Plug.mtu.setupOld oracles).toOption.map .mtu
+  else if name == "lease_time" then (Plug.leasetime.setupOld oracles).toOption.map .leasetime
+  else if name == "ipv6only" then (Plug.ipv6only.setupOld oracles).toOption.map .ipv6only
+  else none
+
+def showDecoded (k : Nat) (b : Bytes) : String := match Plug.decBe k b with | some v => toString v | none => "?"
+
+/-- the configured number, the field it has to fit, and what a client would read -/
+def rangeDetail : Plug.Cfg4 → String
+  | .mtu n => s!"an MTU of {n}: option 26 carries 0..65535, a client would read {showDecoded 2 (Plug.encU16 n)}"
+  | .leasetime d => s!"a lease time of {d} ns: option 51 carries 0..4294967295 whole seconds, a client would read {showDecoded 4 (Plug.encSecs d)} s"
+  | .ipv6only d => s!"a V6ONLY_WAIT of {d} ns: option 108 carries 0..4294967295 whole seconds, a client would read {showDecoded 4 (Plug.encSecs d)} s"
+  | _ => "a value outside the wire range"
 
 def stepCfg (proto name : String) (args : List String) (res : String) : St × List String :=
   match proto.toNat? with
@@ -212,12 +224,20 @@ def stepCfg (proto name : String) (args : List String) (res : String) : St × Li
         match m with
         | some (.ok cfg) =>
           let c19 := if C19.wireOK cfg then [] else [s!"FAIL C19 {wireDetail name cfg}"]
+          -- C17 "exactly the configured value": never fires for what the model accepts (`C17_accepted_exact`)
           let rng := match cfg with
-            | .v4 c => if C17.inRange4 c then (if valueOK cfg then [] else [s!"FAIL C17 {name} in-range argument is not encoded as itself"])
-                       else [s!"DIVERGE drift {name} argument outside the range of C17 (sent truncated)"]
+            | .v4 c => if C17.exact4 c then [] else [s!"FAIL C17 {name} accepted {rangeDetail c}"]
             | .v6 _ => []
           ({ name := name, proto := p, implOk := true, cfg := some cfg }, [s!"br:{tag}.setup-ok"] ++ c19 ++ rng)
         | _ =>
+          match (acceptedOutOfRange p name oracles).filter (fun c => !C17.exact4 c) with
+          | some c =>
+            -- D22–D24 on the observation: the set-up returned a handler for a number that does not fit the option
+            ({ name := name, proto := p, implOk := true, cfg := some (.v4 c) },
+              [s!"br:{tag}.setup-ok", s!"br:{tag}.accepted-out-of-range", s!"{dv} model={fmtSetup m}",
+               s!"FAIL C17 {name} set-up accepted {rangeDetail c}",
+               s!"FAIL C19 {name} an argument that cannot be honoured on the wire was accepted at start-up: {rangeDetail c}"])
+          | none =>
           ({ name := name, proto := p, implOk := true, raw := args.filterMap parseHex }, [s!"br:{tag}.setup-ok", s!"{dv} model={fmtSetup m}"] ++
             (if nonAscii then [] else [s!"FAIL C19 {name} implementation accepts a configuration the model rejects"]))
       | ["err"] =>
@@ -311,7 +331,12 @@ def step4 (st : St) (res : String) : List String :=
         | .serverid a =>
           (if C14.namesOther4 a view then ["br:plug.sid4.other-server"] else ["br:plug.sid4.for-us"]) ++
           (if C14.holds4 a view pre out then [] else [s!"FAIL C14 {st.name} {short res}"])
-        | _ => if C17.holds4 cfg view pre out then [] else [s!"FAIL C17 {st.name} {short res}"]
+        | _ => (if C17.holds4 cfg view pre out then [] else [s!"FAIL C17 {st.name} {short res}"]) ++
+               -- a configuration outside the wire range (D22–D24; the verdict was given at its pcfg): every reply the plugin changes
+               -- announces something else than what was configured
+               (match out with
+                | (some r, _) => if !C17.exact4 cfg && r != pre then [s!"FAIL C17 {st.name} the reply does not carry the configured value ({rangeDetail cfg}): {short res}"] else []
+                | _ => [])
       brs ++ dv ++ cons ++ mon ++ rtMsgs st rt
     | _, _, _ => ["DIVERGE drift unparsed-result"]
   | some (.v6 _), _ => ["DIVERGE drift protocol-mismatch"]
